@@ -7,7 +7,7 @@ R=${VERIF_REPO:-/repo}
 ./check --setup >/dev/null 2>&1 || echo "SETUP FAILED"
 for d in mutants/preserving/*/; do
   id=$(basename $d); p=${id%%-*}
-  git -C $R apply $d/patch.diff 2>/dev/null || { echo "$id: patch does not apply"; continue; }
+  git -C $R apply "$PWD/$d/patch.diff" 2>/dev/null || { echo "$id: patch does not apply"; continue; }
   ./check $p > .work/refac.out 2> .work/refac.err; rc=$?
   echo "$id exit=$rc $(grep -c '^VIOLATION' .work/refac.out) violations; $(tail -1 .work/refac.err | cut -c1-170)"
   grep '^VIOLATION' .work/refac.out | cut -c1-200
